@@ -638,7 +638,10 @@ class Engine:
         return r
 
     def check_ground(self, formulas, timeout_ms, keep=()):
-        s = self._solver(timeout_ms)
+        # the budget is a deterministic resource limit (about what z3 does in `timeout_ms` on an idle core); the wall-clock
+        # timeout is only a distant backstop, so that path exploration does not depend on how busy the machine is
+        s = self._solver(max(5000, 25 * timeout_ms))
+        s.set('rlimit', int(timeout_ms) * 1500)
         side = []
         for a in self.ground(self.axioms + self.func_axioms + list(formulas)) + [k for k in keep if not self._has_q(k)]:
             s.add(self.abstract_seq(a, side))
